@@ -67,6 +67,10 @@ def gen_spec(R, idx: int, backend: str, method: bool) -> Dict[str, Any]:
         final += f" {R.choice(['+', '-', '*'])} {temps[k]}"
     rtype = R.choice(["double", "double", "int", "float"])
     body_cpp.append(f"{R.choice(['auto', 'double'])} {rname} = {final};")
+    if R.random() < 0.3:
+        # a string literal that contains '//' (a URL) and a genuine trailing comment: neither is the translator's to touch
+        body_cpp.insert(0, 'const char* url_c11 = "root://eospublic.cern.ch//eos/opendata/f.root";')
+        body_cpp[-1] = body_cpp[-1][:-1] + " + 0.0 * (url_c11[4] == ':' ? (url_c11[7] == 'e' ? 1 : 2) : 3);  // uses url_c11, ends in a comment"
     if R.random() < 0.25:
         # C++ does not care about line breaks: a statement continued on the next line of the same code entry, a trailing newline
         k = R.randrange(len(body_cpp))
@@ -95,6 +99,9 @@ def py_function(spec: Dict[str, Any]):
         env = dict(zip(params, [float(a) for a in args]))
         for ln in lines:
             ln = " ".join(ln.split())
+            if ln.startswith("const char* url_c11"):
+                continue
+            ln = re.sub(r" \+ 0\.0 \* \(url_c11.*$", ";", ln)
             m = re.match(r"(?:auto|double)\s+(\w+)\s*=\s*(.*);", ln)
             rhs = m.group(2)
             if mobj:
@@ -173,6 +180,10 @@ def make_case(ctx: Ctx, backend: str, i: int) -> diff.Case:
     if second and R.random() < 0.5:
         mds.reverse()
     c = diff.Case(backend, q, evgen.gen_events(s, ctx.rng("ev", backend, i), 4), diff.members_used(s, q) + mds, tag={"spec": spec, "method": method, "two_functions": bool(second)}, extra_globals=extra)
+    if spec["rtype"] == "float" or (second and second["rtype"] == "float"):
+        # results declared float are single precision at every call; nested calls and cancelling arithmetic on them amplify the
+        # 1e-7 steps beyond the per-column float tolerance (a wrong substitution is an O(1) effect and still stands out)
+        c.min_tol = 1e-3  # type: ignore
     if method:
         c.ref_query = re.sub(rf"j\.{name}\(", f"{name}__m(j, ", q)  # type: ignore
         c.extra_globals = {f"{name}__m": (lambda o, *a: pf(*a, _self_pt=o.pt()))}
